@@ -64,6 +64,21 @@ def strip_generic_args(name):
     return name[:i - 2] if i >= 2 and name[i - 2:i] == '::' else name
 
 
+def conversion_body(F, name):
+    """the body of the crate's `impl From<A> for B` behind a call `<A as Into<B>>::into` / `<B as From<A>>::from`, else None"""
+    cb = F.bodies.get(name)
+    if cb is not None and cb.kind == 'fn' and cb.hdr.get('item') == 'from' and (cb.hdr.get('trait') or '').endswith('convert::From') and cb.argc == 1: return cb
+    m = re.match(r'^<(.+) as std::convert::Into<(.+)>>::into$', name)
+    if m: a, b = m.group(1), m.group(2)
+    else:
+        m = re.match(r'^<(.+) as std::convert::From<(.+)>>::from$', name)
+        if not m: return None
+        b, a = m.group(1), m.group(2)
+    hits = [x for x in F.bodies.values() if x.kind == 'fn' and x.hdr.get('item') == 'from' and (x.hdr.get('trait') or '').endswith('convert::From')
+            and x.hdr.get('targs') == [a] and x.hdr.get('self') in (b, b.split('::', 1)[-1]) and x.argc == 1]
+    return hits[0] if len(hits) == 1 else None
+
+
 def parsed_type_from_str(F, name):
     """the body of `<T as FromStr>::from_str` for a call `str::parse::<T>` when T is a type of the crate, else None"""
     m = re.search(r'\bstr>?::parse::<(.+)>$', name)
@@ -644,6 +659,11 @@ class Sx:
             elif meth in SX_IDENT:
                 return oo
             return node
+        if item in ('into', 'from') and len(args) == 1:
+            cb = conversion_body(self.F, name)                  # `x.into()` through an `impl From<A> for B` of the crate: that function's value
+            if cb is not None:
+                r = self.apply(('const', cb.name), [args[0]], st)
+                if r is not None: return r
         if item in SX_IDENT and args:
             return self.deref(args[0], st) if args[0][0] in ('ref', 'lref') else args[0]
         tr = ri.get('trait') or ''
@@ -737,6 +757,7 @@ class Sx:
         `.filter_map(tagged_var)`): the item, when there is one, is the chain applied to an item of the base"""
         a = node[3][0]; it = self.deref(a, st) if a[0] in ('ref', 'lref') else a
         v, flags, cur, fn = self.chain(node, it, st)
+        if fn and 'skipped' in flags: st.events.append(('filtered-out', node)); return          # this item never comes out of the iterator
         if fn and v is not None: self.items[node] = v
 
     # ---------------------------------------------------------------- statements
@@ -1358,7 +1379,13 @@ def ranges_rules(ctx, b):
 
 class FinishCase(SxOracle):
     """finish(): one column with upper bound `u` and lower bound `l` (None: no entry); `item_tab` is the table the loop runs over"""
-    def __init__(self, u, l, item_tab, item_local): self.u = u; self.l = l; self.item_tab = item_tab; self.item_local = item_local
+    def __init__(self, u, l, item_tab, item_local, member=None): self.u = u; self.l = l; self.item_tab = item_tab; self.item_local = item_local; self.member = member
+
+    def call(self, sx, node, st):
+        # member=False: the column is not in `integer` (a continuous column with bounds [0, 1])
+        _, item, name, args, bi, occ = node
+        if self.member is False and item in ('remove', 'contains') and 'HashSet' in name and args and sx_table_of(args[0]) == 'integer': return _cbool(False)
+        return None
 
     def _tab(self, v):
         if v[0] == 'call' and v[1] in ('get', 'get_key_value') and 'HashMap::<' in v[2]:
@@ -1369,6 +1396,7 @@ class FinishCase(SxOracle):
     def variant(self, sx, v, st):
         t = self._tab(v)
         if t: return 'Some' if getattr(self, t) is not None else 'None'
+        if self.member is False and v[0] == 'call' and v[1] in ('take', 'get') and 'HashSet' in v[2] and v[3] and sx_table_of(v[3][0]) == 'integer': return 'None'
         return None
 
     def num(self, sx, v, st):
@@ -1448,6 +1476,12 @@ def finish_rules(ctx, b):
             case = 'u=%s l=%s' % (u, l)
             if promote and not (done and both and all(lk for _, lk in took)): probs.append('%s: not moved from integer to binary' % case)
             if not promote and any(t for t, _ in took): probs.append('%s: moved to binary' % case)
+            if promote:
+                # only INTEGER columns: for a column with these bounds that is not in `integer` nothing is put into `binary`
+                ps2 = sx_loop_paths(ctx, rule, 'T-BRANCHFX', b, FinishCase(u, l, item_tab, nextc.dst['l'], member=False), loops[0])
+                if ps2 is None: return
+                if any(tab == 'binary' and item == 'insert' for p in ps2 if p.end in ('stop', 'return') for tab, item, a, r, bb in sx_table_calls(p)):
+                    probs.append('%s: a column that is not in integer is made binary' % case)
     ctx.check(n > 0 and not probs, rule, 'T-BRANCHFX', b.name, 'finish() must turn integer columns with u == 1 and l absent or 0 (and only those) into binaries: %s' % '; '.join(probs[:4]), b.site(nextc.bb))
 
 
@@ -1592,14 +1626,23 @@ def line_filter_rules(ctx):
             ctx.fn(b)
             stops = {x.bb for bb_, x in sites if bb_ is b}
             try:
-                ps = Sx(ctx, b, LineCase(c.bb, kind)).run(c.bb, None, stops)
+                # with what the code before the pull has defined (the iterator may have been wrapped in lazy filter adaptors there)
+                pre = [p0.env for p0 in Sx(ctx, b, LineCase(c.bb, kind), max_paths=300).run(0, None, {c.bb}) if p0.end == 'stop' and p0.bb == c.bb][:2]
+            except (SxLimit, RecursionError):
+                pre = []
+            ps = []; env0 = {}
+            try:
+                for env in (pre or [None]):
+                    env0 = env or {}
+                    ps += [(env0, p_) for p_ in Sx(ctx, b, LineCase(c.bb, kind)).run(c.bb, env, stops)]
             except (SxLimit, RecursionError):
                 probs.append('%s: too many paths to decide' % b.name); continue
-            for p in ps:
+            for env0, p in ps:
                 n += 1
+                if any(e[0] == 'filtered-out' and e[1][4] == c.bb for e in p.events): continue          # a filter in front of this pull drops such a line: it is never handed out here
                 done = [e for e in p.events if e[0] == 'store' or (e[0] == 'call' and not (e[4] == c.bb and e[5] is not None and p.events.index(e) == 0) and
                         (strip_generic_args(e[2]) in ctx.F.bodies or e[1] in ('parse', 'insert', 'remove', 'take', 'push', 'entry', 'get_mut', 'from_residual')))]
-                touched = [l for l in p.env if l < len(b.locals) and re.search(r'parser::(State|Mps)\b', b.locals[l]) and not b.locals[l].lstrip().startswith('&')]
+                touched = [l for l in p.env if l < len(b.locals) and re.search(r'parser::(State|Mps)\b', b.locals[l]) and not b.locals[l].lstrip().startswith('&') and p.env[l] != env0.get(l)]
                 what = 'a %s line' % ('blank' if kind == 'blank' else 'comment')
                 if p.end != 'stop': probs.append('%s (line %s): after %s the reader does not go on to the next line (%s)' % (b.name.split('::')[-1], b.site(c.bb).split(':')[-1], what, p.end))
                 elif done or touched: probs.append('%s (line %s): %s is not skipped: %s' % (b.name.split('::')[-1], b.site(c.bb).split(':')[-1], what, ', '.join(sorted({e[1] for e in done})) or 'the parser state is changed'))
